@@ -24,7 +24,8 @@ LEVEL_NOTE = ("Trusted: Coq kernel, extraction, the Go harness (reflection-based
               "non-String map keys. dag-json has no Coq round-trip theorem to instantiate the order-canonicalising theorem with; it is covered by the correspondence run.")
 TRUSTED = ["float64->float32->float64 conversion: parameter narrow32 of the model (no hypothesis needed by the theorems); the driver supplies OCaml Int32.float_of_bits/bits_of_float",
            "Go field lookup by strings.Title(schema field name): the model matches struct fields by position; the harness types follow the naming convention",
-           "dag-cbor / dag-json map key order is applied by the driver with sort_maps (codec correctness is C02-C04)"]
+           "dag-cbor / dag-json map key order is applied by the driver with sort_maps (codec correctness is C02-C04)",
+           "C19_marshal_roundtrip_dagjson: premises A1, A2 (strconv / refmt emitFloat float text) and CID (cid.Decode inverts Cid.String()) are hypotheses of the statement (coq/Proofs/JsonMain.v), sampled on the real code by ./check C04"]
 RULE = ("53 declared Go types (incl. rename chains/swaps/cycles onto sibling field names, nullable/optional Bytes and lists behind pointers) x {explicit schema, inferred schema where inferSchema applies}; records = probes of the known "
         "findings, compatibility matrix (diagonal + random pairs), schema->Go type inference + build (type level, representation builder, dag-cbor decode), Wrap of random "
         "well-formed values (integer width extremes, nil/non-nil pointers, unions, enums, ordered maps), builds at type and "
